@@ -1017,7 +1017,7 @@ selftest(
            'C06.homo'),
     Mutant('homo-pow-factor-mul', _U, "pow(self._factor, power),", "self._factor * power,", 'C06.homo'),
     Mutant('homo-fracpow-factor', _U, "                    f = self._factor**power", "                    f = self._factor**rounded", 'C06.homo'),
-    Mutant('homo-fracpow-powers-mul', _U, "                    p = [x / rounded for x in self._powers]",
+    Mutant('homo-fracpow-powers-mul', _U, "                    p = [x // rounded for x in self._powers]",
            "                    p = [x * rounded for x in self._powers]", 'C06.homo'),
     Mutant('homo-fracpow-no-divisibility', _U, "                if all([x % rounded == 0 for x in self._powers]):",
            "                if any([x % rounded == 0 for x in self._powers]):", 'C06.homo'),
@@ -1060,8 +1060,15 @@ selftest(
     Mutant('simplify-missing-name-one', _U, "        except KeyError:\n            return 0", "        except KeyError:\n            return 1", 'C06.simplify'),
     Mutant('simplify-set-name-zero', _U, "        self._names[name] = 1", "        self._names[name] = 0", ['C06.simplify', 'C06.define']),
     # ---- fracpow
-    Mutant('fracpow-names-times', _U, "                        names = self._names / rounded", "                        names = self._names * rounded",
-           'C06.fracpow'),
+    Mutant('fracpow-names-times', _U, "names = NumberDict((k, v // rounded) for k, v in self._names.items())",
+           "names = NumberDict((k, v * rounded) for k, v in self._names.items())", 'C06.fracpow'),
+    # the defect fixed by 5e5066e: true division leaves float exponents that name() renders as **2.0
+    Mutant('fracpow-prefix-true-division', _U, "names = NumberDict((k, v // rounded) for k, v in self._names.items())",
+           "names = self._names / rounded", 'C06.fracpow',
+           also=[(_U, "                    p = [x // rounded for x in self._powers]",
+                  "                    p = [x / rounded for x in self._powers]")]),
+    Mutant('fracpow-prefix-float-powers', _U, "                    p = [x // rounded for x in self._powers]",
+           "                    p = [x / rounded for x in self._powers]", 'C06.fracpow'),
     Mutant('fracpow-fallback-factor-lost', _U, "                        if f != 1.:\n                            names[str(f)] = 1",
            "                        if f == 1.:\n                            names[str(f)] = 1", 'C06.fracpow'),
     Mutant('fracpow-names-divisibility', _U, "                    if all([x % rounded == 0 for x in self._names.values()]):",
@@ -1078,6 +1085,10 @@ selftest(
     Mutant('offset-mul-and', _U,
            "        if self._offset != 0 or (isinstance(other, PhysicalUnit) and\n                                 other._offset != 0):\n            raise TypeError(f\"Can't multiply units",
            "        if self._offset != 0 and (isinstance(other, PhysicalUnit) and\n                                 other._offset != 0):\n            raise TypeError(f\"Can't multiply units", 'C06.offset'),
+    # the defect fixed by 7abd247: number / offset-unit accepted
+    Mutant('offset-prefix-rdiv-unguarded', _U,
+           "        if self._offset != 0:\n            raise TypeError(f\"Can't divide by unit",
+           "        if False:\n            raise TypeError(f\"Can't divide by unit", 'C06.offset'),
     # ---- define / library
     Mutant('define-offset-factor-div', _U, "    unit = PhysicalUnit(baseunit._names, baseunit._factor * factor,",
            "    unit = PhysicalUnit(baseunit._names, baseunit._factor / factor,", ['C06.define', 'C06.library']),
